@@ -79,6 +79,43 @@ def main(tier):
             nontrivial += 1
             if len(samples) < 3 and 0.0 in c and len(shape) > 1:
                 samples.append({'shape': list(shape), 'x': x.tolist()})
+    # ---- histories: several results alive at once (an expression such as abs(a) - abs(b) keeps the first result while the
+    # second is computed): every result keeps its value, no two results and no result and argument share memory, and the
+    # argument is not modified
+    funcs = [('abs', lambda z: cs_safe.abs(z), lambda x: np.abs(x), lambda x, d: np.where(x > 0, d, np.where(x < 0, -d, np.abs(d)))),
+             ('arctan2(., 1.5)', lambda z: cs_safe.arctan2(z, np.full(z.shape, 1.5)), lambda x: np.arctan2(x, 1.5), lambda x, d: 1.5 * d / (x ** 2 + 2.25))]
+    for shape in [(3,), (2, 2), (1, 2, 2), ()]:
+        n = int(np.prod(shape)) if shape else 1
+        xs = [np.array([vals[(k * 3 + j) % len(vals)] for j in range(n)]).reshape(shape) for k in range(4)]
+        dirs = (np.arange(1, n + 1) * 0.5 * np.where(np.arange(n) % 2, -1.0, 1.0)).reshape(shape)
+        for fname, f, fval, fder in funcs:
+            for cplx in (False, True):
+                ev += 1
+                args = [(x + 1j * h * dirs) if cplx else x.copy() for x in xs]
+                keep = [a.copy() for a in args]
+                outs = [f(a) for a in args]                     # all results stay alive
+                desc = dict(function=fname, shape=list(shape), complex_step=cplx, history='%d same-shaped calls, all results kept' % len(xs))
+                bad = False
+                for k, (x, o) in enumerate(zip(xs, outs)):
+                    o = np.asarray(o)
+                    if not np.allclose(o.real, fval(x), rtol=1e-13, atol=1e-13) or (cplx and not np.allclose(o.imag / h, fder(x, dirs), rtol=1e-10, atol=1e-12)):
+                        fail(kind='a result changed after later calls', call=k, x=x.tolist(), got=o.real.tolist(), expected=np.asarray(fval(x)).tolist(), **desc)
+                        bad = True
+                        break
+                if not bad and shape:
+                    for i in range(len(outs)):
+                        for j in range(len(outs)):
+                            if (i < j and np.shares_memory(outs[i], outs[j])) or np.shares_memory(outs[i], args[j]):
+                                fail(kind='results / arguments share memory', calls=[i, j], **desc)
+                                bad = True
+                                break
+                        if bad:
+                            break
+                if not bad and any(not np.array_equal(a, k0) for a, k0 in zip(args, keep)):
+                    fail(kind='argument modified', **desc)
+                    bad = True
+                if not bad:
+                    nontrivial += 1
     print(json.dumps({'evaluations': ev, 'distinct_nontrivial': nontrivial, 'n_failures': len(fails), 'failures': [f for f in fails if f], 'samples': samples}))
 
 
